@@ -350,7 +350,36 @@ func c11Run(rc *core.RunCtx) {
 			}
 		}
 	}
-	// (5) size limits: many constants / names / long jumps / deep nesting
+	// (5) every program of the scope-tree generator (C03): nestings of def/lambda/class/comprehension
+	// with bind/use/global/nonlocal/del - the symbol-table and closure paths of the compiler
+	rc.Part = "scopes"
+	scopeProg := func(mod *sscope, _ int) {
+		if rc.Expired() || rc.Done() {
+			return
+		}
+		if !rc.Take() {
+			return
+		}
+		r := &c03r{}
+		r.body(0, cloneScope(mod, nil))
+		c11One(rc, r.b.String(), py.ExecMode, "scope")
+	}
+	c03Skeletons(rc.Quick(), scopeProg)
+	c03Siblings(rc.Quick(), scopeProg)
+	{
+		budget, depth := 4, 3
+		if !rc.Quick() {
+			budget = 5
+		}
+		g := &c03gen{rc: rc, names: []string{"x"}, maxDepth: depth}
+		g.items(scModule, 0, budget, func(items []*sitem, used int) {
+			if used == 0 {
+				return
+			}
+			scopeProg(&sscope{kind: scModule, items: items}, used)
+		})
+	}
+	// (6) size limits: many constants / names / long jumps / deep nesting
 	rc.Part = "limits"
 	for _, g := range c11Limits(rc.Quick()) {
 		if rc.Expired() || rc.Done() {
@@ -509,7 +538,7 @@ func init() {
 		Level: "model_checking",
 		Rule: "every fragment sequence up to the length bound over an 100-fragment alphabet (space-joined), a 25-byte tight alphabet, a 20-fragment structural alphabet, " +
 			"x 3 compile modes x {with, without trailing newline}; token deletions/duplications/swaps, byte deletions and line truncations of every .py file in /repo; " +
-			"size-limit programs. A case is non-trivial unless it is the empty text; distinct by (mode, text).",
+			"every program of the C03 scope-tree generator (compile only); size-limit programs. A case is non-trivial unless it is the empty text; distinct by (mode, text).",
 		Run:         c11Run,
 		Assumptions: []string{"totality over all byte strings is approximated by closure over the stated alphabets and length bounds", "hangs are detected by a 150 s no-progress watchdog"},
 		Explanation: "stateless exhaustive enumeration of inputs; oracle: result is a code object or a SyntaxError-family exception with filename, lineno, offset",
